@@ -901,3 +901,38 @@ Proof.
       rewrite np_cons in Hn. discriminate.
     + lia.
 Qed.
+
+(* ================================================================== *)
+(* 7. the rounding of the specification is a nearest rounding          *)
+(* ================================================================== *)
+
+Lemma rne_div_nearest a p : 0 < p ->
+  2 * Z.abs (rne_div a p * p - a) <= p /\
+  (2 * (a mod p) = p -> Z.even (rne_div a p) = true).
+Proof.
+  intro Hp. unfold rne_div.
+  pose proof (Z.div_mod a p ltac:(lia)) as Hd.
+  pose proof (Z.mod_pos_bound a p Hp) as Hm.
+  set (d := a / p) in *. set (r := a mod p) in *.
+  destruct (Z.ltb_spec (2 * r) p); [split; [nia | lia]|].
+  destruct (Z.ltb_spec p (2 * r)); [split; [nia | lia]|].
+  destruct (Z.even d) eqn:E; (split; [nia|]); intros _; [exact E|].
+  rewrite Z.even_add, E. reflexivity.
+Qed.
+
+(* [exact_dec m e] = (N, q) says m * 2^e = N * 10^q exactly *)
+Lemma exact_dec_value m e N q : exact_dec m e = (N, q) ->
+  (0 <= e -> q = 0 /\ N = m * 2 ^ e) /\
+  (e < 0 -> q = e /\ N * 2 ^ (- e) = m * 10 ^ (- e)).
+Proof.
+  unfold exact_dec. destruct (Z.geb_spec e 0) as [He|He]; intro H; inversion H; subst; clear H.
+  - split; [|lia]. intros _. split; [reflexivity|]. apply Z.shiftl_mul_pow2. lia.
+  - split; [lia|]. intros _. split; [reflexivity|].
+    replace 10 with (5 * 2) by reflexivity. rewrite Z.pow_mul_l. ring.
+Qed.
+
+Lemma str_field_amp s : using_format [ch_amp] [UStr s] = UOk s.
+Proof. reflexivity. Qed.
+
+Lemma str_field_bang c s : using_format [ch_bang] [UStr (c :: s)] = UOk [c].
+Proof. reflexivity. Qed.
